@@ -441,9 +441,11 @@ impl<'a> Printer<'a> {
     /// lambda bodies may not contain via / into / where at their top level
     fn lambda_body(&mut self, body: &E) -> String {
         let s = self.expr(body, 0);
-        let natural_top = matches!(body, E::Bin(op, ..) if matches!(op, Op::Via | Op::Into | Op::Where));
+        // the grammar admits via / into / where nowhere in the unbracketed operator chain of a
+        // lambda body (lambda_infix_usage): parenthesise the body if one is visible there
+        let natural_visible = has_top_level_word(&s, &["via", "into", "where"]);
         let full = self.mode == Mode::Full && body.level() < LEVEL_ATOM;
-        if natural_top || full { self.wrap(s) } else { s }
+        if natural_visible || full { self.wrap(s) } else { s }
     }
 
     fn str_lit(s: &str) -> String {
@@ -565,7 +567,8 @@ impl<'a> Printer<'a> {
                 format!("{{{}}}", self.sequence(parts, true, false))
             }
             E::Lambda(ps, body) => {
-                let args = if ps.len() == 1 && self.tape.pick(2) == 0 {
+                // `...r => body` without parentheses would read as a spread in item / argument position
+                let args = if ps.len() == 1 && !matches!(ps[0], P::Rest(_)) && self.tape.pick(2) == 0 {
                     ps[0].text()
                 } else {
                     format!("({})", ps.iter().map(|p| p.text()).collect::<Vec<_>>().join(", "))
@@ -742,6 +745,47 @@ impl<'a> Printer<'a> {
         }
         out
     }
+}
+
+/// does `text` contain one of `words` as a whole word outside brackets, strings and comments?
+pub fn has_top_level_word(text: &str, words: &[&str]) -> bool {
+    let cs: Vec<char> = text.chars().collect();
+    let mut depth = 0i32;
+    let mut i = 0;
+    while i < cs.len() {
+        let c = cs[i];
+        match c {
+            '"' | '\'' => {
+                let q = c;
+                i += 1;
+                while i < cs.len() && cs[i] != q {
+                    i += 1;
+                }
+            }
+            '/' if i + 1 < cs.len() && cs[i + 1] == '/' => {
+                while i < cs.len() && cs[i] != '\n' {
+                    i += 1;
+                }
+            }
+            '(' | '[' | '{' => depth += 1,
+            ')' | ']' | '}' => depth -= 1,
+            _ if depth == 0 && (c.is_ascii_alphabetic() || c == '_') => {
+                let st = i;
+                while i < cs.len() && (cs[i].is_ascii_alphanumeric() || cs[i] == '_') {
+                    i += 1;
+                }
+                let w: String = cs[st..i].iter().collect();
+                let prev_ok = st == 0 || !(cs[st - 1] == '#' || cs[st - 1] == '.');
+                if prev_ok && words.contains(&w.as_str()) {
+                    return true;
+                }
+                continue;
+            }
+            _ => {}
+        }
+        i += 1;
+    }
+    false
 }
 
 // -----------------------------------------------------------------------------------------
